@@ -225,7 +225,15 @@ def run_path(contract, world, prefix, compare_spec=True, forker=None):
         except Infeasible:
             status = 'infeasible'
     except Unsupported as e:
-        status = 'unsupported: %s' % e
+        # a construct outside the model was reached: the path is only acceptable if it is infeasible, which the LIA
+        # abstraction used for branching may have missed; the full solver decides (a failure here is "undecided",
+        # never a violation)
+        status = 'guarded-unsupported'
+        try:
+            ex.prove('a path reaching an unmodelled construct is infeasible (%s)' % e, False,
+                     meta={'kind': 'unsupported-path', 'what': str(e)})
+        except Exception:
+            status = 'unsupported: %s' % e
     return ex, status
 
 
@@ -348,6 +356,8 @@ def discharge(obligations, timeout=10, both=False):
     results = solve.solve_many(texts, timeout=timeout, both=both)
     for o, r in zip(obligations, results):
         o.verdict, o.by, o.model = r['verdict'], r['by'], r['model']
+        if (o.meta or {}).get('kind') == 'unsupported-path' and o.verdict != 'unsat':
+            o.verdict = 'unknown'       # undecided (engine limit), not a refutation of the code
 
 
 def verify_all(contracts, names=None, timeout=10, both=False, path_limit=4000, verbose=False, workers=None):
